@@ -46,7 +46,14 @@ func (ip *Interp) noteAlloc(site string, size *Term) {
 		return
 	}
 	ip.ex.observed = append(ip.ex.observed, "alloc-request "+site)
-	ip.ex.Assert(ip.ts.Cmp(OpUle, size, m.threshold), m.label)
+	// prefer a moderate witness (threshold < size <= 64*threshold) that the native replay can
+	// measure without exhausting memory; then require the bound for all remaining sizes
+	ts := ip.ts
+	if m.threshold.IsConst() && m.threshold.k < 1<<56 {
+		moderate := ts.BAnd(ts.Cmp(OpUlt, m.threshold, size), ts.Cmp(OpUle, size, Const(64, m.threshold.k*64)))
+		ip.ex.Assert(ts.BNot(moderate), m.label)
+	}
+	ip.ex.Assert(ts.Cmp(OpUle, size, m.threshold), m.label)
 	m.total = ip.ts.Bin(OpAdd, m.total, size)
 }
 
